@@ -7,7 +7,7 @@ SPEC = {
              'of sizes 0-7 (empty and non-dividing included), chains unbatch -> process -> rebatch, blocking '
              'downstreams, 4 tie-break policies; after EVERY event, for each batcher: emitted leaves + leaves '
              'inside (output, batch under construction, rest of the input) == leaves arrived, in order; emitted '
-             'batch sizes; acceptance only when empty (judged on the previous event boundary); every held '
+             'batch sizes; acceptance only when empty (judged on the previous event boundary); buffers and sinks count every leaf (level() == stored leaf parts, sink counters); every held '
              'batch\'s routing history is a suffix of each contained part\'s; a case is one model; non-trivial = '
              'at least one output emitted by a batcher and a batch received somewhere'),
     'floors': {'quick': {'batcher_outputs': 5000, 'batcher_checks': 30000, 'empty_batches_consumed': 20,
@@ -17,7 +17,7 @@ SPEC = {
     'assumptions': ['a PartBatcher is never placed inside a group (DESIGN 2.8)'],
     'timeout_s': {'quick': 900, 'thorough': 7200},
 }
-MONITORS = ('batching', 'conserve')
+MONITORS = ('batching', 'conserve', 'buffers')
 
 
 def nontrivial(f):
